@@ -1,7 +1,7 @@
 (* C01: LapTimer files survive encode -> decode -> encode unchanged. *)
 From Coq Require Import String Ascii List ZArith NArith Bool Lia.
 From TT Require Import Base.Civil.
-From TT Require Import Base.Outcome Base.Str Base.F64 Xml.Print Xml.Lex Laptimer.Leaves Laptimer.Value Laptimer.Codec Proofs.Xml_proofs Proofs.Leaf_proofs Proofs.Doc_proofs Proofs.Doc_lt Proofs.Fixed_proofs Proofs.Leaf2_proofs Proofs.Leaf3_proofs.
+From TT Require Import Base.Outcome Base.Str Base.F64 Xml.Print Xml.Lex Laptimer.Leaves Laptimer.Value Laptimer.Codec Proofs.Xml_proofs Proofs.Leaf_proofs Proofs.Doc_proofs Proofs.Doc_lt Proofs.Fixed_proofs Proofs.Leaf2_proofs Proofs.Leaf3_proofs Proofs.Struct_proofs.
 Import ListNotations.
 Local Open Scope Z_scope.
 
@@ -139,3 +139,23 @@ Theorem C01_leaf_reencode :
   forall l, leaf_dom l -> exists l', quant_leaf l = Ok l' /\ leaf_text l' = leaf_text l.
 Proof. exact leaf_reencode. Qed.
 Print Assumptions C01_leaf_reencode.
+
+(* ---- the database level ---- *)
+(* `val_ok v`: every leaf that is written is in the leaf domain, and no optional (omitempty) leaf
+   decodes to an empty value (that class is the known finding D22, see
+   C01_reencode_omitempty_refuted).  For EVERY such value - any number of laps, fixes, vehicles,
+   any nesting - decoding the encoding gives a value whose encoding is the same document, byte
+   for byte. *)
+Theorem C01_reencode_identical :
+  forall v, val_ok v -> exists q, quant v = Ok q /\ enc q = enc v.
+Proof. exact reencode_identical. Qed.
+Print Assumptions C01_reencode_identical.
+
+Example C01_val_ok_example :
+  val_ok (VStruct [("lap"%string, MPlain, FMany [VStruct [("note"%string, MOmit, FOne (VLeaf (LvStr [104; 105])));
+                                                          ("lapTime"%string, MPlain, FOne (VLeaf (LvDur 83450000000)));
+                                                          ("empty"%string, MOmit, FOne (VLeaf (LvStr [])))]])]).
+Proof.
+  cbn. repeat split; try lia; try reflexivity.
+  intros _ l' E. cbn in E. inversion E. reflexivity.
+Qed.
